@@ -7,6 +7,8 @@ From Coq Require Import List NArith.
 From Goit Require Import Bytes Sha1 Obj World Repo ObjFacts MonadFacts.
 From Goit Require Import Tree Index Commit Inv ConnectedFacts.
 From Goit Require Import Bridge.
+From Goit Require Import Refs BranchFacts.
+From Goit Require HeadFacts.
 Import ListNotations.
 
 (* T0 (tie to the source): every regexp literal of the current Go source denotes
@@ -83,3 +85,30 @@ Print Assumptions C03_connected_alone_not_inductive.
 Print Assumptions C03_step.
 Print Assumptions C03_branches_name_complete_commits.
 Print Assumptions C03_source_patterns_are_the_models.
+
+(* names: after any history HEAD (once the repository exists) and every branch carry a name that is a
+   single, non-empty path component other than "." and "..", free of '/', '\\', control bytes and
+   newlines -- so no branch file lies outside refs/heads and the HEAD file always reads back *)
+Theorem C03_names_valid_on_every_history : forall w, Reachable w ->
+  (w_inited w = true -> valid_branch_name (w_head w) = true) /\
+  Forall (fun kv => valid_branch_name (fst kv) = true) (w_refs w).
+Proof. exact HeadFacts.reachable_names_valid. Qed.
+
+Theorem C03_branch_name_shape : forall w n id,
+  Reachable w -> am_get (w_refs w) n = Some id ->
+  n <> [] /\ n <> [x2e] /\ n <> [x2e; x2e] /\
+  contains_byte c_slash n = false /\ contains_byte x5c n = false /\ ~ In c_nl n.
+Proof. exact HeadFacts.reachable_branch_name_shape. Qed.
+
+Theorem C03_head_file_reads_back : forall w,
+  Reachable w -> w_inited w = true -> parse_head (render_head (w_head w)) = Some (w_head w).
+Proof. exact HeadFacts.reachable_head_file_reads_back. Qed.
+
+(* also in the world a command stops in when one of its writes fails *)
+Theorem C03_names_valid_under_fault : forall e c w k r s',
+  HeadFacts.NamesValid w -> run_cmd e c (mkMS w [] (Some k)) = (r, s') -> HeadFacts.NamesValid (ms_w s').
+Proof. exact HeadFacts.names_valid_fault. Qed.
+Print Assumptions C03_names_valid_on_every_history.
+Print Assumptions C03_branch_name_shape.
+Print Assumptions C03_head_file_reads_back.
+Print Assumptions C03_names_valid_under_fault.
